@@ -70,10 +70,11 @@ namespace Gleece.Cli
 theorem wrap_contract (c : Cmd) (f : FnResult) (h : FnContract c f = true) : Contract c (wrap true f) = true := by
   cases c <;> cases hf : f.failed <;> simp_all [Contract, FnContract, wrap, artifacts]
 
-/-- … and one that does not propagate it breaks the contract on EVERY failing run: exit 0 without the artifacts -/
-theorem wrap_without_propagation_breaks (c : Cmd) (f : FnResult) (hf : f.failed = true) (hs : f.spec = false) (hr : f.routes = false) :
+/-- … and one that does not propagate it breaks the contract on EVERY failing run of a GENERATING command: exit 0
+    without the artifacts (`dump` leaves no artifact the contract could miss) -/
+theorem wrap_without_propagation_breaks (c : Cmd) (hc : c ≠ .dump) (f : FnResult) (hf : f.failed = true) (hs : f.spec = false) (hr : f.routes = false) :
     Contract c (wrap false f) = false := by
-  cases c <;> simp [Contract, wrap, artifacts, hf, hs, hr]
+  cases c <;> simp_all [Contract, wrap, artifacts]
 
 /-- **Every command of the program that calls a generation entry point propagates its failure** (regenerated from
     cmd/*.go on every run: `os.Exit(<non-zero>)` in the `if err != nil` block, or `return err` from a `RunE`) -/
